@@ -68,7 +68,9 @@ ASSUMPTIONS = [
     "preconditions from the property text: dt > 0, omega_0*dt < 2, damping gamma >= 0; additionally omega_0 >= 0 (documented 'Must be > 0'; a negative resonance frequency with |omega_0| dt >= 2 passes the code's `omega0_dt >= 2.0` guard and is outside the property's domain)",
     "omega real and not a singularity of the declared model (denominator non-zero)",
     "oriented poles: coupling K >= 0 (the code rejects K < 0 with ValueError) and no dE/dt coupling (rejected at construction)",
-    "per-axis activity classes (coupling a != 0 / a == 0, b != 0 / a == b == 0 per axis) are fixed by assumptions per task; quick tier: a rotating subset in which every axis takes every class, thorough tier: all combinations",
+    "per-axis activity classes are fixed structurally per task (Lorentz/Drude: A strength != 0, I strength literally 0; CCPR: G Re(r) != 0 (a unconstrained), L Re(r) = 0 with Im(r), Im(q) != 0, I r = 0; critical point: G A, sin(phi) != 0, L sin(phi) = 0 with A, cos(phi) != 0, I A = 0); quick tier: a rotating subset in which every axis takes every class, thorough tier: all combinations",
+    "not covered: the degenerate CCPR pair with a real pole and a purely imaginary non-zero residue (a = b = 0 although r != 0; its declared susceptibility is identically 0)",
+    "off-diagonal tensor entries (j,k) of axis-aligned poles are claimed to be 0 at the frequencies where row j's own model is finite (the code evaluates 0/denominator_j there)",
     "the asymptotic clause (relative error O((omega dt)^2) of the recurrence's own frequency response) is NOT covered",
 ]
 MIN_OBLIGATIONS = {"quick": 150, "thorough": 400}
@@ -404,7 +406,8 @@ def _per_axis(kind, classes, variant):
                     if j == k:
                         prove_rational_equal(c, f"chi_from_coefficients[{j},{j}]==declared", chi.at_index((4 * j,)), P.chi(j, om), relations=P.relations, nonzero_terms=P.den_nz(j, om))
                     else:
-                        prove_rational_equal(c, f"chi_from_coefficients[{j},{k}]==0", chi.at_index((3 * j + k,)), 0, [])
+                        # entry (j,k) runs on the oscillator of row j: finite wherever that row's model is
+                        prove_rational_equal(c, f"chi_from_coefficients[{j},{k}]==0", chi.at_index((3 * j + k,)), 0, nonzero_terms=P.den_nz(j, om))
         for ax in range(n_ax):
             nzt = P.den_nz(ax, om)
             want = P.chi(ax, om)
@@ -469,11 +472,18 @@ def _oriented_negative_coupling(c, inp):
     c.assume((de != 0).z)
     pole = D.LorentzPole(resonance_frequency=w0, damping=g, delta_epsilon=de).aset("orientation", u)
     c.cover("pre")
+    had = SymNum.__dict__.get("__format__")
+    SymNum.__format__ = lambda self, spec: repr(self)  # the error message formats K with ':.4g'
     try:
         D.compute_pole_coefficients_tensor((pole,), dt)
         c.prove("accepted_only_if_K>=0", de >= 0)
     except ValueError as e:
         c.prove("rejected_only_if_K<0", A._vand("negative coupling" in str(e), de < 0))
+    finally:
+        if had is None:
+            del SymNum.__format__
+        else:
+            SymNum.__format__ = had
 
 
 def _sum_of_poles(variant):
@@ -554,8 +564,8 @@ def _zero_padding(num_components, coupling_components):
                     if oriented:
                         want = want + P.chi(0, om) * orient[j] * orient[k]
                         nzt += P.den_nz(0, om)
-                    elif j == k:
-                        want = want + P.chi(j, om)
+                    else:
+                        want = want + (P.chi(j, om) if j == k else 0)
                         nzt += P.den_nz(j, om)
                 prove_rational_equal(c, f"{name}/chi[{comp}]==sum_of_own_poles", chi.at_index((comp,)), want, nonzero_terms=nzt)
 
@@ -567,7 +577,7 @@ def _zero_padding(num_components, coupling_components):
 # ---------------------------------------------------------------------------------------
 
 
-_LETTERS = {"lorentz": "AI", "drude": "AI", "ccpr": "GLIJ", "critical_point": "GLI"}
+_LETTERS = {"lorentz": "AI", "drude": "AI", "ccpr": "GLI", "critical_point": "GLI"}
 
 
 def _class_sets(kind, tier):
@@ -580,7 +590,7 @@ def _class_sets(kind, tier):
     if letters == "AI":
         return ["AAA", "IAA", "AIA", "AAI", "III"]
     # every axis takes every class once (G forks on a != 0, so only one G per quick task)
-    return ["GLI", "JGL", "IJG", "LIJ", "LLL"]
+    return ["GLI", "IGL", "LIG", "LLL"]
 
 
 def tasks(tier, seed):
